@@ -18,9 +18,10 @@ RoundOK(mant, k1, k2, k3, neg2, d, digits, nfrac, lastFrac, pad) ==
              ELSE 2 * AbsD(digits * 10^pad - mant * P * 10^d) <= 1
 \* with no digit limit the shortest-decimal rendering must parse back to the same float64: the literal lies
 \* within half an ulp of the value (ulp = 2^k for a 53-bit mantissa scaled so that |mant| >= 2^52, or the value is 0)
-\* @type: (Int, Int, Int, Int, Bool, Int, Int) => Bool;
-ParsesBack(mant, k1, k2, k3, neg2, digits, nfrac) ==
-  LET P == 2^k1 * 2^k2 * 2^k3 IN
-  IF neg2 THEN 2 * AbsD(digits * P - mant * 10^nfrac) <= 10^nfrac
-          ELSE 2 * AbsD(digits - mant * P * 10^nfrac) <= P * 10^nfrac
+\* (the number of fractional digits is passed in two parts, nf1 + nf2, for the same reason as the binary exponent)
+\* @type: (Int, Int, Int, Int, Bool, Int, Int, Int) => Bool;
+ParsesBack(mant, k1, k2, k3, neg2, digits, nf1, nf2) ==
+  LET P == 2^k1 * 2^k2 * 2^k3  T == 10^nf1 * 10^nf2 IN
+  IF neg2 THEN 2 * AbsD(digits * P - mant * T) <= T
+          ELSE 2 * AbsD(digits - mant * P * T) <= P * T
 ====
